@@ -302,8 +302,11 @@ func (p *Pipeline) Run() *Result {
 		}
 		var mfails []Failure
 		if p.Repeat > 1 {
+			// the re-executions of a case share one Schema value (the library's idiom: machines are made
+			// from package-level schema variables); the first execution above had its own
+			shared := AmSchema(cr.sch)
 			for k := 1; k < p.Repeat; k++ {
-				obs2, _, err2 := RunImpl(cr.c)
+				obs2, _, err2 := RunImplSchema(cr.c, shared)
 				if err2 != nil {
 					continue
 				}
